@@ -22,7 +22,8 @@ Definition C14_full (observe : c14case -> list Z) : Prop :=
 
 (* (0) master statement about the functions the harness evaluates: on every input outside the
    open finding classes (5 blank search text, 6 parser stack, 7 nested non-nullable references,
-   8 WHERE filter on the selected json value in an aggregate selection),
+   8 WHERE filter on the selected json value in an aggregate selection, 9 ConnectionInfo length,
+   10 date beyond the calendar),
    what the model says the implementation observes satisfies the property's oracle — no panic
    code, every probe answered, every valid request Ok, parentheses paired and SELECTs linear in
    the request.  All case kinds, sequences of any length. *)
@@ -173,6 +174,35 @@ Theorem C14_clause_witnesses :
   aquery_valid w_alias_filter_agg = true /\ aquery_outcome w_alias_filter_agg = OErr /\ known_C14 (CAgg w_alias_filter_agg) = [8].
 Proof. exact clause_witnesses_w. Qed.
 Print Assumptions C14_clause_witnesses.
+
+(* (7) frames received from a peer (network/endpoint.rs): the reader loops of start_channels never
+   request a buffer beyond their limit and never deliver more frames than were sent, for every
+   stream; the ConnectionInfo reader of start_accepted requests exactly the announced length before
+   any check (class 9, refuted with the 4 GiB witness).  Rows ingested with a date: the writer
+   thread only panics beyond the calendar (class 10) *)
+Theorem C14_frame_len_guard_holds : forall limit fs,
+  (snd (read_channel limit fs) <= limit)%N /\ (fst (read_channel limit fs) <= N.of_nat (List.length fs))%N.
+Proof. exact read_channel_bounded. Qed.
+Print Assumptions C14_frame_len_guard_holds.
+
+Theorem C14_conn_info_allocation_refuted : forall len avail dec, snd (read_conn_info (FFrame len avail dec)) = len.
+Proof. exact conn_info_requests_len. Qed.
+Print Assumptions C14_conn_info_allocation_refuted.
+
+Theorem C14_ingest_date_outside_known : forall rf md,
+  ingest_outcome rf md = OPanic -> (Z.leb rf md && Z.ltb max_calendar_ms md) = true.
+Proof. exact ingest_panics_only_beyond_calendar. Qed.
+Print Assumptions C14_ingest_date_outside_known.
+
+Theorem C14_frame_and_date_witnesses :
+  run_C14 (CFrames (FFrame 4294967295 0 false) [] [] []) = [0; 0; 0; 0; 1; 1] /\
+  spec_C14 (CFrames (FFrame 4294967295 0 false) [] [] []) [0; 0; 0; 0; 1; 1] = false /\
+  known_C14 (CFrames (FFrame 4294967295 0 false) [] [] []) = [9] /\
+  run_C14 (CFrames (FFrame 90 90 true) [] [FFrame 45 45 true; FFrame 4294967295 45 false; FFrame 45 45 true] []) = [1; 0; 1; 0; 0; 1] /\
+  run_C14 (CIngest 1000 8210266876800000) = [2; 0] /\ known_C14 (CIngest 1000 8210266876800000) = [10] /\
+  run_C14 (CIngest 1000 8210266876799999) = [0; 1] /\ run_C14 (CIngest 1000 (-5)) = [0; 1].
+Proof. exact frame_witnesses_w. Qed.
+Print Assumptions C14_frame_and_date_witnesses.
 
 Example C14_nonvacuous :
   known_C14 (CQuery w_dm [w_q (Some (cp "grp")) None [RNamed None (cp "name"); RSub None (cp "pets") [RNamed None (cp "name")]]]) = [] /\
